@@ -76,6 +76,7 @@ pub fn rungs() -> Vec<Rung> {
     v.push(rung("v9-empty-flowsets-of-4-bytes", (65535 - 20) / 4, |n| Case { prior: vec![v9_tpl_packet(256, &[fs(1, 4)])], input: v9_packet(&V9Pkt::new((0..n).map(|_| V9Set::Data(256, vec![])).collect())) }));
     // ---- template records per set
     v.push(rung("v9-template-records-per-flowset", (65535 - 24) / 8, |n| Case { prior: vec![], input: v9_packet(&V9Pkt::new(vec![V9Set::Tpl((0..n).map(|k| V9Tpl { id: 256 + (k % 60000) as u16, fields: vec![fs(1, 4)] }).collect(), 0)])) }));
+    v.push(rung("v9-fieldless-template-records-per-flowset", (65535 - 24) / 4, |n| Case { prior: vec![], input: v9_packet(&V9Pkt::new(vec![V9Set::Tpl((0..n).map(|k| V9Tpl { id: 256 + (k % 60000) as u16, fields: vec![] }).collect(), 0)])) }));
     v.push(rung("v9-options-template-records-per-flowset", (65535 - 24) / 10, |n| Case { prior: vec![], input: v9_packet(&V9Pkt::new(vec![V9Set::OptTpl((0..n).map(|k| V9OptTpl { id: 256 + (k % 60000) as u16, scope: vec![fs(1, 4)], opts: vec![] }).collect(), 0)])) }));
     v.push(rung("ipfix-template-records-per-set", (65535 - 20) / 8, |n| Case { prior: vec![], input: ipfix_message(&IpfixMsg::new(vec![IpfixSet::Tpl((0..n).map(|k| IpfixTpl { id: 256 + (k % 60000) as u16, fields: vec![fs(1, 4)] }).collect(), 0)])) }));
     // ---- fields per template (template, then one data packet of 64 bytes decoded with it)
